@@ -782,3 +782,1304 @@ Proof.
   - apply ret_flagged; [exact G|]. apply fold_ok_inv; [|exact G]. intros w' v _ G'.
     destruct (mem v (field w' p fk)); [apply set_discard_good|apply set_add_good]; exact G'.
 Qed.
+
+(* ================================================================== *)
+(** * Module-list operations: nothing an index depends on changes *)
+
+Definition ModParOK (w : world) : Prop :=
+  forall v old, kindof w v = KMod -> par w v = Some old -> kindof w old = KIR.
+
+Definition mq (w w' : world) : Prop :=
+  (forall n, attr w' n = attr w n) /\ (forall n, tree w' n = tree w n) /\
+  (forall n, kids w' n = kids w n \/ kindof w n = KIR) /\
+  (forall n, par w' n = par w n \/ par w' n = None \/ exists ir, par w' n = Some ir /\ kindof w ir = KIR).
+
+Lemma mq_refl : forall w, mq w w.
+Proof. intros w. repeat split; auto. Qed.
+
+Lemma mq_trans : forall w w' w'', mq w w' -> mq w' w'' -> mq w w''.
+Proof.
+  intros w w' w'' (A1 & T1 & K1 & P1) (A2 & T2 & K2 & P2).
+  assert (KK : forall n, kindof w' n = kindof w n) by (intros n; apply attr_kindof, A1).
+  split; [|split; [|split]].
+  - intros n. rewrite A2. apply A1.
+  - intros n. rewrite T2. apply T1.
+  - intros n. destruct (K2 n) as [E|E].
+    + rewrite E. apply K1.
+    + right. rewrite <- KK. exact E.
+  - intros n. destruct (P2 n) as [E|[E|[ir [E1 E2]]]].
+    + rewrite E. apply P1.
+    + right. left. exact E.
+    + right. right. exists ir. split; [exact E1|]. rewrite <- KK. exact E2.
+Qed.
+
+Lemma mq_sync : forall w w', mq w w' -> SyncAll w -> SyncAll w'.
+Proof.
+  intros w w' (A & T & K & P) H. apply sync_same with (w := w); [exact H|exact T|].
+  intros n. destruct (K n) as [E|E].
+  - apply cur_ivs_ext; [apply A|exact E|intros; apply A].
+  - unfold cur_ivs. rewrite (attr_kindof _ _ _ (A n)), E. reflexivity.
+Qed.
+
+Lemma mq_good : forall w w', mq w w' -> Good w -> Good w'.
+Proof.
+  intros w w' M [H N]. split; [apply (mq_sync w w' M H)|].
+  destruct M as (A & _). apply attr_nonneg with (w := w); assumption.
+Qed.
+
+Lemma mq_modpar : forall w w', mq w w' -> ModParOK w -> ModParOK w'.
+Proof.
+  intros w w' (A & T & K & P) M v old Kv Pv.
+  rewrite (attr_kindof _ _ _ (A old)). rewrite (attr_kindof _ _ _ (A v)) in Kv.
+  destruct (P v) as [E|[E|[ir [E1 E2]]]].
+  - apply (M v old Kv). rewrite <- E. exact Pv.
+  - congruence.
+  - rewrite Pv in E1. injection E1 as E1. subst ir. exact E2.
+Qed.
+
+Lemma par_nodes : forall w w' n, nodes w' = nodes w -> par w' n = par w n.
+Proof. intros w w' n H. unfold par, getn. rewrite H. reflexivity. Qed.
+
+Lemma mq_set_kids : forall w ir l, kindof w ir = KIR -> mq w (set_kids w (upd (kids w) ir l)).
+Proof.
+  intros w ir l K. repeat split; auto. intros n. cbn [kids set_kids].
+  destruct (Z.eqb_spec n ir) as [E|E]; [subst n; right; exact K|left; apply upd_other; exact E].
+Qed.
+
+Lemma ml_remove_hook_mq : forall w ir v, mq w (fst (ml_remove_hook w ir v)).
+Proof.
+  intros w ir v. unfold ml_remove_hook. split; [|split; [|split]].
+  - intros n. autorewrite with wf. reflexivity.
+  - intros n. reflexivity.
+  - intros n. left. reflexivity.
+  - intros n. change (par (fst (cache_remove (set_par w v None) ir v)) n) with (par (set_par w v None) n).
+    rewrite par_set_par. destruct (n =? v); auto.
+Qed.
+
+Lemma ml_del_at_mq : forall w ir i, kindof w ir = KIR -> mq w (fst (ml_del_at w ir i)).
+Proof.
+  intros w ir i K. unfold ml_del_at. destruct (nth_error (kids w ir) i) as [v|]; [|apply mq_refl].
+  pose proof (ml_remove_hook_mq w ir v) as M. destruct (ml_remove_hook w ir v) as [w1 ok]. cbn [fst] in *.
+  eapply mq_trans; [exact M|]. apply mq_set_kids.
+  destruct M as (A & _). rewrite (attr_kindof _ _ _ (A ir)). exact K.
+Qed.
+
+Lemma ml_remove_mq : forall w ir v, kindof w ir = KIR ->
+  mq w (fst (match ml_remove w ir v with Ok r => r | Err _ => (w, false) end)).
+Proof.
+  intros w ir v K. unfold ml_remove. destruct (index_of v (kids w ir)); [|apply mq_refl].
+  apply ml_del_at_mq. exact K.
+Qed.
+
+Lemma ml_add_hook_mq : forall w ir v, kindof w v = KMod -> kindof w ir = KIR -> ModParOK w ->
+  mq w (fst (ml_add_hook w ir v)).
+Proof.
+  intros w ir v Kv Ki M. unfold ml_add_hook.
+  assert (M1 : mq w (fst (match par w v with
+                          | Some old => match ml_remove w old v with Ok r => r | Err _ => (w, false) end
+                          | None => (w, true) end))).
+  { destruct (par w v) as [old|] eqn:P; [|apply mq_refl]. apply ml_remove_mq. apply (M v old Kv P). }
+  destruct (match par w v with Some old => _ | None => _ end) as [w1 ok]. cbn [fst] in *.
+  eapply mq_trans; [exact M1|].
+  assert (Ki1 : kindof w1 ir = KIR) by (destruct M1 as (A & _); rewrite (attr_kindof _ _ _ (A ir)); exact Ki).
+  split; [|split; [|split]].
+  - intros n. autorewrite with wf. reflexivity.
+  - intros n. reflexivity.
+  - intros n. left. reflexivity.
+  - intros n. change (par (cache_add (set_par w1 v (Some ir)) ir v) n) with (par (set_par w1 v (Some ir)) n).
+    rewrite par_set_par. destruct (n =? v); [|auto]. right. right. exists ir. auto.
+Qed.
+
+Lemma ml_insert_mq : forall w ir i v, kindof w v = KMod -> kindof w ir = KIR -> ModParOK w ->
+  mq w (fst (ml_insert w ir i v)).
+Proof.
+  intros w ir i v Kv Ki M. unfold ml_insert.
+  pose proof (ml_add_hook_mq w ir v Kv Ki M) as M1. destruct (ml_add_hook w ir v) as [w1 ok]. cbn [fst] in *.
+  eapply mq_trans; [exact M1|]. apply mq_set_kids.
+  destruct M1 as (A & _). rewrite (attr_kindof _ _ _ (A ir)). exact Ki.
+Qed.
+
+Lemma ml_append_mq : forall w ir v, kindof w v = KMod -> kindof w ir = KIR -> ModParOK w ->
+  mq w (fst (ml_append w ir v)).
+Proof. intros. unfold ml_append. apply ml_insert_mq; assumption. Qed.
+
+(* invariant carried through folds of module-list hooks *)
+Definition MI (w w' : world) : Prop := mq w w' /\ ModParOK w'.
+
+Lemma MI_refl : forall w, ModParOK w -> MI w w.
+Proof. intros w M. split; [apply mq_refl|exact M]. Qed.
+
+Lemma MI_step : forall w w' w'', MI w w' -> mq w' w'' -> MI w w''.
+Proof.
+  intros w w' w'' [M1 P1] M2. split; [eapply mq_trans; eassumption|]. apply (mq_modpar w' w'' M2 P1).
+Qed.
+
+Lemma MI_kind : forall w w' n, MI w w' -> kindof w' n = kindof w n.
+Proof. intros w w' n [(A & _) _]. apply attr_kindof, A. Qed.
+
+Lemma kind_eqb_eq : forall a b, kind_eqb a b = true -> a = b.
+Proof. intros [] []; cbn; intros H; try reflexivity; discriminate. Qed.
+
+Lemma is_k_kind : forall w n k, is_k w n k = true -> kindof w n = k.
+Proof. intros w n k H. unfold is_k in H. apply andb_true_iff in H. apply kind_eqb_eq. tauto. Qed.
+
+Lemma forest_modpar : forall w known, Forest w known -> ModParOK w.
+Proof.
+  intros w known F v old Kv Pv. destruct (f_kind w known F old v Pv) as (_ & _ & Hk).
+  rewrite Kv in Hk. cbn in Hk. injection Hk as Hk. symmetry. exact Hk.
+Qed.
+
+Lemma mod_append_mq : forall w ir v, ModParOK w -> is_k w ir KIR = true -> is_k w v KMod = true ->
+  MI w (ret w (flagged (ml_append w ir v))).
+Proof.
+  intros w ir v M Ki Kv. apply is_k_kind in Ki. apply is_k_kind in Kv.
+  apply ret_flagged; [apply MI_refl; exact M|].
+  eapply MI_step; [apply MI_refl; exact M|]. apply ml_append_mq; assumption.
+Qed.
+
+Lemma mod_insert_mq : forall w ir i v, ModParOK w -> is_k w ir KIR = true -> is_k w v KMod = true ->
+  MI w (ret w (flagged (ml_insert w ir i v))).
+Proof.
+  intros w ir i v M Ki Kv. apply is_k_kind in Ki. apply is_k_kind in Kv.
+  apply ret_flagged; [apply MI_refl; exact M|].
+  eapply MI_step; [apply MI_refl; exact M|]. apply ml_insert_mq; assumption.
+Qed.
+
+Lemma fold_append_MI : forall w ir vs, ModParOK w -> kindof w ir = KIR ->
+  (forall v, In v vs -> kindof w v = KMod) ->
+  MI w (fst (fold_ok (fun w v => ml_append w ir v) vs w)).
+Proof.
+  intros w ir vs M Ki Kv. apply fold_ok_inv; [|apply MI_refl; exact M].
+  intros w' v Hv HI. eapply MI_step; [exact HI|]. apply ml_append_mq.
+  - rewrite (MI_kind w w' v HI). apply Kv. exact Hv.
+  - rewrite (MI_kind w w' ir HI). exact Ki.
+  - destruct HI as [_ P]. exact P.
+Qed.
+
+Lemma fold_add_hook_MI : forall w0 w ir vs, MI w0 w -> kindof w ir = KIR ->
+  (forall v, In v vs -> kindof w v = KMod) ->
+  MI w0 (fst (fold_ok (fun w v => ml_add_hook w ir v) vs w)).
+Proof.
+  intros w0 w ir vs M Ki Kv.
+  assert (Kw : forall n, kindof w n = kindof w0 n) by (intros n; apply (MI_kind w0 w n M)).
+  apply fold_ok_inv; [|exact M].
+  intros w' v Hv HI. eapply MI_step; [exact HI|]. apply ml_add_hook_mq.
+  - rewrite (MI_kind w0 w' v HI), <- Kw. apply Kv. exact Hv.
+  - rewrite (MI_kind w0 w' ir HI), <- Kw. exact Ki.
+  - destruct HI as [_ P]. exact P.
+Qed.
+
+Lemma fold_remove_hook_MI : forall w ir vs, ModParOK w ->
+  MI w (fst (fold_ok (fun w v => ml_remove_hook w ir v) vs w)).
+Proof.
+  intros w ir vs M. apply fold_ok_inv; [|apply MI_refl; exact M].
+  intros w' v Hv HI. eapply MI_step; [exact HI|]. apply ml_remove_hook_mq.
+Qed.
+
+Lemma forallb_is_k : forall w vs k, forallb (fun v => is_k w v k) vs = true -> forall v, In v vs -> kindof w v = k.
+Proof. intros w vs k H v Hv. rewrite forallb_forall in H. apply is_k_kind. apply H. exact Hv. Qed.
+
+(* all module-list operations *)
+Lemma mod_ops_MI : forall w known o, ModParOK w -> op_okb w known o = true ->
+  match o with
+  | OModAppend _ _ | OModInsert _ _ _ | OModExtend _ _ | OModRemove _ _ | OModPop _ _ | OModDelItem _ _
+  | OModDelSlice _ _ _ | OModSetItem _ _ _ | OModSetSlice _ _ _ _ | OModClear _ | OModReverse _ => MI w (step' w o)
+  | _ => True
+  end.
+Proof.
+  intros w known o M G. assert (R := MI_refl w M).
+  destruct o as [n k u a s f nm p | c p | p fk m args | ir v | ir i v | ir vs | ir v | ir i | ir i | ir a b
+              | ir i v | ir a b vs | ir | ir | bi a | n s | b o' | s nm | s p | bi k e | bi k | bi k | bi
+              | bi k e | bi kvs | bi | bi kvs | n];
+    try exact I; rewrite step'_ret; cbn [step]; cbn [op_okb] in G.
+  - (* append *) apply andb_true_iff in G. destruct G as [Gi Gv]. apply mod_append_mq; assumption.
+  - (* insert *) apply andb_true_iff in G. destruct G as [Gi Gv]. apply mod_insert_mq; assumption.
+  - (* extend *) apply andb_true_iff in G. destruct G as [Gi Gv]. apply is_k_kind in Gi.
+    apply ret_flagged; [exact R|]. apply fold_append_MI; [exact M|exact Gi|apply forallb_is_k; exact Gv].
+  - (* remove *) apply andb_true_iff in G. destruct G as [Gi Gv]. apply is_k_kind in Gi.
+    unfold ml_remove. destruct (index_of v (kids w ir)); [|exact R]. cbn [bind].
+    apply ret_flagged; [exact R|]. eapply MI_step; [exact R|]. apply ml_del_at_mq. exact Gi.
+  - (* pop *) apply is_k_kind in G. destruct (norm_index i (length (kids w ir))); [|exact R].
+    apply ret_flagged; [exact R|]. eapply MI_step; [exact R|]. apply ml_del_at_mq. exact G.
+  - (* delitem *) apply is_k_kind in G. destruct (norm_index i (length (kids w ir))); [|exact R].
+    apply ret_flagged; [exact R|]. eapply MI_step; [exact R|]. apply ml_del_at_mq. exact G.
+  - (* delslice *) apply is_k_kind in G. cbv zeta.
+    match goal with |- context [fold_ok ?f ?l w] => pose proof (fold_remove_hook_MI w ir l M) as H1;
+      destruct (fold_ok f l w) as [w1 ok] end.
+    cbn [fst] in H1. apply ret_flagged; [exact R|]. cbn [fst].
+    eapply MI_step; [exact H1|]. apply mq_set_kids. rewrite (MI_kind w w1 ir H1). exact G.
+  - (* setitem *) apply andb_true_iff in G. destruct G as [Gi Gv]. apply is_k_kind in Gi. apply is_k_kind in Gv.
+    destruct (norm_index i (length (kids w ir))) as [k|]; [|exact R].
+    destruct (nth_error (kids w ir) k) as [old|]; [|exact R].
+    destruct (mem v (kids w ir) && negb (v =? old)); [exact R|].
+    assert (H1 : MI w (fst (ml_remove_hook w ir old))) by (eapply MI_step; [exact R|apply ml_remove_hook_mq]).
+    destruct (ml_remove_hook w ir old) as [w1 ok1]. cbn [fst] in H1.
+    assert (H2 : MI w (fst (ml_add_hook w1 ir v))).
+    { eapply MI_step; [exact H1|]. apply ml_add_hook_mq.
+      - rewrite (MI_kind w w1 v H1). exact Gv.
+      - rewrite (MI_kind w w1 ir H1). exact Gi.
+      - destruct H1 as [_ P]. exact P. }
+    destruct (ml_add_hook w1 ir v) as [w2 ok2]. cbn [fst] in H2.
+    apply ret_flagged; [exact R|]. cbn [fst].
+    eapply MI_step; [exact H2|]. apply mq_set_kids. rewrite (MI_kind w w2 ir H2). exact Gi.
+  - (* setslice *) apply andb_true_iff in G. destruct G as [Gi Gv]. apply is_k_kind in Gi.
+    pose proof (forallb_is_k w vs KMod Gv) as Kv. cbv zeta.
+    match goal with |- context [if ?c then Err EImpossible else _] => destruct c end; [exact R|].
+    match goal with |- context [fold_ok ?f ?l w] => pose proof (fold_remove_hook_MI w ir l M) as H1;
+      destruct (fold_ok f l w) as [w1 ok1] end.
+    cbn [fst] in H1.
+    assert (H2 : MI w (fst (fold_ok (fun w v => ml_add_hook w ir v) vs w1))).
+    { apply fold_add_hook_MI; [exact H1|rewrite (MI_kind w w1 ir H1); exact Gi|].
+      intros v Hv. rewrite (MI_kind w w1 v H1). apply Kv. exact Hv. }
+    destruct (fold_ok (fun w v => ml_add_hook w ir v) vs w1) as [w2 ok2]. cbn [fst] in H2.
+    apply ret_flagged; [exact R|]. cbn [fst].
+    eapply MI_step; [exact H2|]. apply mq_set_kids. rewrite (MI_kind w w2 ir H2). exact Gi.
+  - (* clear *) apply is_k_kind in G.
+    pose proof (fold_remove_hook_MI w ir (rev (kids w ir)) M) as H1.
+    destruct (fold_ok (fun w v => ml_remove_hook w ir v) (rev (kids w ir)) w) as [w1 ok]. cbn [fst] in H1.
+    apply ret_flagged; [exact R|]. cbn [fst].
+    eapply MI_step; [exact H1|]. apply mq_set_kids. rewrite (MI_kind w w1 ir H1). exact G.
+  - (* reverse *) apply is_k_kind in G. cbn [ret]. eapply MI_step; [exact R|]. apply mq_set_kids. exact G.
+Qed.
+
+(* ================================================================== *)
+(** * Parent setters *)
+
+Lemma setparent_other_good : forall w c p, Good w ->
+  Good (ret w (do w1 <- match par w c with Some old => flagged (set_discard w old c) | None => Ok w end;
+               match p with Some q => flagged (set_add w1 q c) | None => Ok w1 end)).
+Proof.
+  intros w c p G. destruct (par w c) as [old|].
+  - pose proof (set_discard_good w old c G) as G1. destruct (set_discard w old c) as [w1 ok].
+    cbn [flagged fst] in *. destruct ok; cbn [bind]; [|exact G].
+    destruct p as [q|]; [|exact G1]. apply ret_flagged; [exact G|apply set_add_good; exact G1].
+  - cbn [bind]. destruct p as [q|]; [|exact G]. apply ret_flagged; [exact G|apply set_add_good; exact G].
+Qed.
+
+Lemma setparent_mod_MI : forall w c p, ModParOK w -> kindof w c = KMod ->
+  match p with Some q => kindof w q = KIR | None => True end ->
+  MI w (ret w (do w1 <- match par w c with
+                        | Some old => do r <- ml_remove w old c; flagged r
+                        | None => Ok w
+                        end;
+               match p with Some ir => flagged (ml_append w1 ir c) | None => Ok w1 end)).
+Proof.
+  intros w c p M Kc Kp. assert (R := MI_refl w M).
+  assert (S2 : forall w1, MI w w1 ->
+            MI w (ret w (match p with Some ir => flagged (ml_append w1 ir c) | None => Ok w1 end))).
+  { intros w1 H1. destruct p as [ir|]; [|exact H1]. apply ret_flagged; [exact R|].
+    eapply MI_step; [exact H1|]. apply ml_append_mq.
+    - rewrite (MI_kind w w1 c H1). exact Kc.
+    - rewrite (MI_kind w w1 ir H1). exact Kp.
+    - destruct H1 as [_ P]. exact P. }
+  destruct (par w c) as [old|] eqn:P.
+  - unfold ml_remove. destruct (index_of c (kids w old)) as [i|]; [|exact R]. cbn [bind].
+    assert (H1 : MI w (fst (ml_del_at w old i))).
+    { eapply MI_step; [exact R|]. apply ml_del_at_mq. apply (M c old Kc P). }
+    destruct (ml_del_at w old i) as [w1 ok]. cbn [flagged fst] in *. destruct ok; cbn [bind]; [|exact R].
+    apply S2. exact H1.
+  - cbn [bind]. apply S2. exact R.
+Qed.
+
+(* ================================================================== *)
+(** * Attribute setters *)
+
+Lemma key_of_attr' : forall w w' n b, kindof w' n = kindof w n -> attr w' b = attr w b ->
+  key_of w' n b = key_of w n b.
+Proof.
+  intros w w' n b Hn Hb. unfold key_of. rewrite Hn.
+  destruct (kindof w n); try reflexivity; [apply attr_addr_iv|apply attr_off_iv]; exact Hb.
+Qed.
+
+Lemma cur_ivs_ext' : forall w w' n, kindof w' n = kindof w n -> kids w' n = kids w n ->
+  (forall b, In b (kids w n) -> attr w' b = attr w b) -> cur_ivs w' n = cur_ivs w n.
+Proof.
+  intros w w' n Hn Hk Hb. rewrite !cur_ivs_key, Hk. apply ivs_of_ext.
+  intros b Hi. apply key_of_attr'; [exact Hn|apply Hb; exact Hi].
+Qed.
+
+(* member b of p gets new keyed attributes; the index of p receives discard(old key), add(new key) *)
+Lemma sync_rekey : forall w w' b p, SyncAll w ->
+  (forall n, n <> b -> attr w' n = attr w n) -> kindof w' b = kindof w b ->
+  (forall n, kids w' n = kids w n) ->
+  (forall m, In b (kids w m) -> m = p) -> In b (kids w p) ->
+  (forall n, tree w' n =
+     if n =? p then lt_add (key_of w' p b) (lt_discard (key_of w p b) (tree w p)) else tree w n) ->
+  SyncAll w'.
+Proof.
+  intros w w' b p H Ha Kb Hk Hu Hin Ht n.
+  assert (KK : forall m, kindof w' m = kindof w m).
+  { intros m. destruct (Z.eq_dec m b) as [E|E]; [subst m; exact Kb|apply attr_kindof, Ha; exact E]. }
+  rewrite Ht. destruct (Z.eqb_spec n p) as [E|E].
+  - subst n.
+    apply sync_lt_add with (cur := ivs_of (key_of w p) (remove_id b (kids w p))).
+    + apply sync_lt_discard with (cur := cur_ivs w p); [apply H|].
+      intros j. rewrite cur_ivs_key, !iv_mem_ivs_of. apply hit_drop. apply keyed_key_of.
+    + intros j. rewrite cur_ivs_key, !iv_mem_ivs_of, Hk.
+      rewrite (existsb_split (hit (key_of w' p) j) b (kids w p) Hin), add_sem_hit. f_equal.
+      apply existsb_hit_ext. intros k Hi. apply In_remove_id in Hi. destruct Hi as [_ Hi].
+      apply key_of_attr'; [apply KK|apply Ha; exact Hi].
+  - rewrite cur_ivs_ext' with (w := w); [apply H|apply KK|apply Hk|].
+    intros k Hi. apply Ha. intros ->. apply E. apply Hu. exact Hi.
+Qed.
+
+Lemma sync_rekey_orphan : forall w w' b, SyncAll w ->
+  (forall n, n <> b -> attr w' n = attr w n) -> kindof w' b = kindof w b ->
+  (forall n, kids w' n = kids w n) -> (forall m, ~ In b (kids w m)) ->
+  (forall n, tree w' n = tree w n) -> SyncAll w'.
+Proof.
+  intros w w' b H Ha Kb Hk Hu Ht.
+  assert (KK : forall m, kindof w' m = kindof w m).
+  { intros m. destruct (Z.eq_dec m b) as [E|E]; [subst m; exact Kb|apply attr_kindof, Ha; exact E]. }
+  apply sync_same with (w := w); [exact H|exact Ht|].
+  intros n. apply cur_ivs_ext'; [apply KK|apply Hk|].
+  intros k Hi. apply Ha. intros ->. apply (Hu n). exact Hi.
+Qed.
+
+Lemma getn_nodes : forall w w' n, nodes w' = nodes w -> getn w' n = getn w n.
+Proof. intros w w' n H. unfold getn. rewrite H. reflexivity. Qed.
+
+Lemma getn_block_attr : forall w b f n, getn (block_attr w b f) n = if n =? b then f (getn w b) else getn w n.
+Proof.
+  intros w b f n. unfold block_attr. destruct (par w b) as [bi|]; [|apply getn_setn].
+  change (getn (tree_add_ev ?x bi ?o) n) with (getn x n). rewrite getn_setn. reflexivity.
+Qed.
+
+Lemma getn_bi_attr : forall w b f n, getn (bi_attr w b f) n = if n =? b then f (getn w b) else getn w n.
+Proof.
+  intros w b f n. unfold bi_attr. destruct (par w b) as [bi|]; [|apply getn_setn].
+  change (getn (tree_add_ev ?x bi ?o) n) with (getn x n). rewrite getn_setn. reflexivity.
+Qed.
+
+Lemma getn_sym_attr : forall w s f n, getn (sym_attr w s f) n = if n =? s then f (getn w s) else getn w n.
+Proof.
+  intros w s f n. unfold sym_attr. destruct (par w s) as [m|]; [|apply getn_setn].
+  rewrite (getn_nodes _ _ n (nodes_mod_index_add _ _ _)), getn_setn.
+  rewrite !(fun x => getn_nodes _ _ x (nodes_mod_index_discard w m s)). reflexivity.
+Qed.
+
+Lemma nonneg_upd : forall w w' b x, NonNeg w -> 0 <= nsize x -> 0 <= noff x ->
+  (forall n, getn w' n = if n =? b then x else getn w n) -> NonNeg w'.
+Proof.
+  intros w w' b x N H1 H2 Hg n. rewrite Hg. destruct (n =? b); [split; assumption|apply N].
+Qed.
+
+Lemma block_attr_sync : forall w known b f, Forest w known -> SyncAll w ->
+  is_block (kindof w b) = true -> (forall x, nk (f x) = nk x) -> SyncAll (block_attr w b f).
+Proof.
+  intros w known b f F H Kb Hf.
+  assert (U : forall m, In b (kids w m) -> par w b = Some m) by (intros m; apply (f_two_ended w known F)).
+  unfold block_attr. destruct (par w b) as [bi|] eqn:P.
+  - assert (Hin : In b (kids w bi)) by (apply (f_two_ended w known F); exact P).
+    assert (Kbi : kindof w bi = KBI).
+    { destruct (f_kind w known F bi b P) as (_ & _ & Hk).
+      destruct (kindof w b); try discriminate; cbn in Hk; injection Hk as Hk; symmetry; exact Hk. }
+    set (w1 := tree_disc_ev w bi (off_iv w b)). set (w2 := setn w1 b (f (getn w1 b))).
+    assert (KK : forall m, kindof (tree_add_ev w2 bi (off_iv w2 b)) m = kindof w m).
+    { intros m. change (kindof w2 m = kindof w m). unfold kindof, w2. rewrite getn_setn.
+      destruct (Z.eqb_spec m b) as [E|E]; [subst m; apply Hf|reflexivity]. }
+    apply sync_rekey with (w := w) (b := b) (p := bi).
+    + exact H.
+    + intros n Hn. change (attr w2 n = attr w n). unfold w2. rewrite attr_setn.
+      destruct (Z.eqb_spec n b); [contradiction|reflexivity].
+    + apply KK.
+    + intros n. reflexivity.
+    + intros m Hm. apply U in Hm. congruence.
+    + exact Hin.
+    + intros n. rewrite (key_of_kind_bi w bi b Kbi), key_of_kind_bi by (rewrite KK; exact Kbi).
+      change (off_iv (tree_add_ev w2 bi (off_iv w2 b)) b) with (off_iv w2 b).
+      unfold w2, w1. wproj. rewrite upd_same.
+      destruct (Z.eqb_spec n bi) as [E|E]; [subst n; rewrite upd_same; reflexivity|].
+      rewrite !upd_other by exact E. reflexivity.
+  - apply sync_rekey_orphan with (w := w) (b := b).
+    + exact H.
+    + intros n Hn. rewrite attr_setn. destruct (Z.eqb_spec n b); [contradiction|reflexivity].
+    + unfold kindof. rewrite getn_setn, Z.eqb_refl. apply Hf.
+    + intros n. reflexivity.
+    + intros m Hm. apply U in Hm. congruence.
+    + intros n. reflexivity.
+Qed.
+
+Lemma bi_attr_sync : forall w known b f, Forest w known -> SyncAll w ->
+  kindof w b = KBI -> (forall x, nk (f x) = nk x) -> SyncAll (bi_attr w b f).
+Proof.
+  intros w known b f F H Kb Hf.
+  assert (U : forall m, In b (kids w m) -> par w b = Some m) by (intros m; apply (f_two_ended w known F)).
+  unfold bi_attr. destruct (par w b) as [s|] eqn:P.
+  - assert (Hin : In b (kids w s)) by (apply (f_two_ended w known F); exact P).
+    assert (Ks : kindof w s = KSec).
+    { destruct (f_kind w known F s b P) as (_ & _ & Hk).
+      rewrite Kb in Hk. cbn in Hk. injection Hk as Hk. symmetry. exact Hk. }
+    set (w1 := tree_disc_ev w s (addr_iv w b)). set (w2 := setn w1 b (f (getn w1 b))).
+    assert (KK : forall m, kindof (tree_add_ev w2 s (addr_iv w2 b)) m = kindof w m).
+    { intros m. change (kindof w2 m = kindof w m). unfold kindof, w2. rewrite getn_setn.
+      destruct (Z.eqb_spec m b) as [E|E]; [subst m; apply Hf|reflexivity]. }
+    apply sync_rekey with (w := w) (b := b) (p := s).
+    + exact H.
+    + intros n Hn. change (attr w2 n = attr w n). unfold w2. rewrite attr_setn.
+      destruct (Z.eqb_spec n b); [contradiction|reflexivity].
+    + apply KK.
+    + intros n. reflexivity.
+    + intros m Hm. apply U in Hm. congruence.
+    + exact Hin.
+    + intros n. rewrite (key_of_kind_sec w s b Ks), key_of_kind_sec by (rewrite KK; exact Ks).
+      change (addr_iv (tree_add_ev w2 s (addr_iv w2 b)) b) with (addr_iv w2 b).
+      unfold w2, w1. wproj. rewrite upd_same.
+      destruct (Z.eqb_spec n s) as [E|E]; [subst n; rewrite upd_same; reflexivity|].
+      rewrite !upd_other by exact E. reflexivity.
+  - apply sync_rekey_orphan with (w := w) (b := b).
+    + exact H.
+    + intros n Hn. rewrite attr_setn. destruct (Z.eqb_spec n b); [contradiction|reflexivity].
+    + unfold kindof. rewrite getn_setn, Z.eqb_refl. apply Hf.
+    + intros n. reflexivity.
+    + intros m Hm. apply U in Hm. congruence.
+    + intros n. reflexivity.
+Qed.
+
+Lemma sym_attr_sync : forall w s f, SyncAll w -> (forall x, akey (f x) = akey x) -> SyncAll (sym_attr w s f).
+Proof.
+  intros w s f H Hf. apply sync_quiet0 with (w := w).
+  - exact H.
+  - intros n. unfold attr. rewrite getn_sym_attr. destruct (Z.eqb_spec n s) as [E|E]; [subst n; apply Hf|reflexivity].
+  - intros n. unfold sym_attr. destruct (par w s) as [m|]; [|reflexivity].
+    rewrite kids_mod_index_add. wproj. rewrite kids_mod_index_discard. reflexivity.
+  - intros n. unfold sym_attr. destruct (par w s) as [m|]; [|reflexivity].
+    rewrite tree_mod_index_add. wproj. rewrite tree_mod_index_discard. reflexivity.
+Qed.
+
+(* ================================================================== *)
+(** * ONew, symbolic-expression maps, OTouch *)
+
+Lemma has_false_getn : forall w n, has w n = false -> getn w n = dnode.
+Proof. intros w n H. unfold has, getn in *. destruct (nodes w n); [discriminate|reflexivity]. Qed.
+
+Lemma new_good : forall w known n k u a s f nm p, Forest w known -> Good w ->
+  op_okb w known (ONew n k u a s f nm p) = true -> Good (step' w (ONew n k u a s f nm p)).
+Proof.
+  intros w known n k u a s f nm p F [H N] G. cbn [op_okb] in G.
+  repeat (apply andb_true_iff in G; destruct G as [G ?]).
+  apply negb_true_iff in G.
+  assert (Hs : 0 <= s) by (apply Z.leb_le; assumption).
+  assert (Hf : 0 <= f) by (apply Z.leb_le; assumption).
+  pose proof (has_false_getn w n G) as Dn.
+  assert (NK : forall m, ~ In n (kids w m)).
+  { intros m Hm. apply (f_two_ended w known F) in Hm. unfold par in Hm. rewrite Dn in Hm. discriminate. }
+  assert (KN : kids w n = []).
+  { destruct (kids w n) as [|c r] eqn:E; [reflexivity|exfalso].
+    assert (Hc : par w c = Some n) by (apply (f_two_ended w known F); rewrite E; left; reflexivity).
+    destruct (f_kind w known F n c Hc) as (_ & Hn & _). congruence. }
+  rewrite step'_ret. cbn [step ret].
+  set (x := {| nk := k; nuuid := u; npar := None; naddr := a; nsize := s; noff := f; nname := nm; npay := p |}).
+  set (w' := match k with KIR => set_cache (setn w n x) (upd (cache (setn w n x)) n [(u, n)]) | _ => setn w n x end).
+  assert (Gn : forall m, getn w' m = if m =? n then x else getn w m).
+  { intros m. unfold w'. destruct k; apply getn_setn. }
+  assert (Kd : forall m, kids w' m = kids w m) by (intros m; unfold w'; destruct k; reflexivity).
+  assert (Tr : forall m, tree w' m = tree w m) by (intros m; unfold w'; destruct k; reflexivity).
+  split.
+  - apply sync_same with (w := w); [exact H|exact Tr|].
+    intros m. destruct (Z.eq_dec m n) as [E|E].
+    + subst m. unfold cur_ivs. rewrite Kd, KN. unfold kindof at 2. rewrite Dn. cbn [nk dnode flat_map].
+      destruct (kindof w' n); reflexivity.
+    + assert (Am : forall b, b <> n -> attr w' b = attr w b).
+      { intros b Hb. unfold attr. rewrite Gn. destruct (Z.eqb_spec b n); [contradiction|reflexivity]. }
+      apply cur_ivs_ext; [apply Am; exact E|apply Kd|].
+      intros b Hb. apply Am. intros ->. apply (NK m). exact Hb.
+  - apply (nonneg_upd w w' n x N); [exact Hs|exact Hf|exact Gn].
+Qed.
+
+Lemma symx_upd_good : forall w bi d, Good w -> Good (symx_upd w bi d).
+Proof.
+  intros w bi d [H N]. split.
+  - apply sync_quiet0 with (w := w); [exact H| | |]; intros n; reflexivity.
+  - apply attr_nonneg with (w := w); [intros n; reflexivity|exact N].
+Qed.
+
+Lemma force_fst : forall w n,
+  fst (force w n) = set_tree w (upd (tree w) n (fst (lt_get (cur_ivs w n) (length (kids w n)) (tree w n)))).
+Proof. intros. unfold force. destruct (lt_get _ _ _) as [t idx]. reflexivity. Qed.
+
+Lemma force_sync : forall w n, SyncAll w -> SyncAll (fst (force w n)).
+Proof.
+  intros w n H m. rewrite force_fst.
+  change (cur_ivs (set_tree w ?f) m) with (cur_ivs w m). cbn [tree set_tree].
+  destruct (Z.eqb_spec m n) as [E|E].
+  - subst m. rewrite upd_same. apply lt_get_sync. apply H.
+  - rewrite upd_other by exact E. apply H.
+Qed.
+
+Lemma force_good : forall w n, Good w -> Good (fst (force w n)).
+Proof.
+  intros w n [H N]. split; [apply force_sync; exact H|].
+  apply attr_nonneg with (w := w); [|exact N]. intros m. rewrite force_fst. reflexivity.
+Qed.
+
+(* ================================================================== *)
+(** * Part 1: the main theorem *)
+
+Lemma with_size_nk : forall s x, nk (with_size x s) = nk x. Proof. reflexivity. Qed.
+Lemma with_off_nk : forall s x, nk (with_off x s) = nk x. Proof. reflexivity. Qed.
+Lemma with_addr_nk : forall s x, nk (with_addr x s) = nk x. Proof. reflexivity. Qed.
+
+Theorem sync_preserved : forall w known o,
+  Forest w known -> Forest (step' w o) (known_after o known) ->
+  SyncAll w -> NonNeg w -> op_okb w known o = true ->
+  SyncAll (step' w o) /\ NonNeg (step' w o).
+Proof.
+  intros w known o F _ HS HN G. assert (GD : Good w) by (split; assumption). change (Good (step' w o)).
+  pose proof (forest_modpar w known F) as MP.
+  pose proof (mod_ops_MI w known o MP G) as MO.
+  destruct o as [n k u a s f nm p | c p | p fk m args | ir v | ir i v | ir vs | ir v | ir i | ir i | ir a b
+              | ir i v | ir a b vs | ir | ir | bi a | n s | b o' | s nm | s p | bi k e | bi k | bi k | bi
+              | bi k e | bi kvs | bi | bi kvs | n];
+    try (apply (mq_good w _ (proj1 MO) GD)); clear MO.
+  - (* ONew *) eapply new_good; eassumption.
+  - (* OSetParent *) rewrite step'_ret. cbn [step]. unfold do_setparent. cbn [op_okb] in G.
+    apply andb_true_iff in G. destruct G as [G Gp]. apply andb_true_iff in G. destruct G as [Gc Gk].
+    destruct (kindof w c) eqn:K; try apply setparent_other_good; try exact GD.
+    assert (M : MI w (ret w (do w1 <- match par w c with
+                        | Some old => do r <- ml_remove w old c; flagged r
+                        | None => Ok w
+                        end;
+               match p with Some ir => flagged (ml_append w1 ir c) | None => Ok w1 end))).
+    { apply setparent_mod_MI; [exact MP|exact K|]. destruct p as [q|]; [|exact I].
+      apply andb_true_iff in Gp. destruct Gp as [_ Gq]. cbn in Gq. apply kind_eqb_eq in Gq. exact Gq. }
+    destruct M as [M _]. apply (mq_good w _ M GD).
+  - (* OSet *) rewrite step'_ret. cbn [step]. apply do_set_good. exact GD.
+  - (* OAttrAddr *) rewrite step'_ret. cbn [step ret]. cbn [op_okb] in G. apply is_k_kind in G. split.
+    + apply (bi_attr_sync w known bi _ F HS G). intros x. reflexivity.
+    + apply (nonneg_upd w _ bi (with_addr (getn w bi) a) HN); [apply HN|apply HN|apply getn_bi_attr].
+  - (* OAttrSize *) rewrite step'_ret. cbn [step]. cbn [op_okb] in G.
+    apply andb_true_iff in G. destruct G as [G Gs]. apply andb_true_iff in G. destruct G as [Gh Gk].
+    apply Z.leb_le in Gs.
+    destruct (kindof w n) eqn:K; cbn [ret]; try discriminate Gk.
+    + split.
+      * apply (bi_attr_sync w known n _ F HS K). intros x. reflexivity.
+      * apply (nonneg_upd w _ n (with_size (getn w n) s) HN); [exact Gs|apply HN|apply getn_bi_attr].
+    + split.
+      * apply (block_attr_sync w known n _ F HS); [rewrite K; reflexivity|intros x; reflexivity].
+      * apply (nonneg_upd w _ n (with_size (getn w n) s) HN); [exact Gs|apply HN|apply getn_block_attr].
+    + split.
+      * apply (block_attr_sync w known n _ F HS); [rewrite K; reflexivity|intros x; reflexivity].
+      * apply (nonneg_upd w _ n (with_size (getn w n) s) HN); [exact Gs|apply HN|apply getn_block_attr].
+  - (* OAttrOff *) rewrite step'_ret. cbn [step ret]. cbn [op_okb] in G.
+    apply andb_true_iff in G. destruct G as [G Go]. apply andb_true_iff in G. destruct G as [Gh Gk].
+    apply Z.leb_le in Go. split.
+    + apply (block_attr_sync w known b _ F HS Gk). intros x. reflexivity.
+    + apply (nonneg_upd w _ b (with_off (getn w b) o') HN); [apply HN|exact Go|apply getn_block_attr].
+  - (* OAttrName *) rewrite step'_ret. cbn [step ret]. split.
+    + apply sym_attr_sync; [exact HS|intros x; reflexivity].
+    + apply (nonneg_upd w _ s (with_name (getn w s) nm) HN); [apply HN|apply HN|apply getn_sym_attr].
+  - (* OAttrPay *) rewrite step'_ret. cbn [step ret]. split.
+    + apply sym_attr_sync; [exact HS|intros x; reflexivity].
+    + apply (nonneg_upd w _ s (with_pay (getn w s) p) HN); [apply HN|apply HN|apply getn_sym_attr].
+  - rewrite step'_ret. cbn [step ret]. apply symx_upd_good. exact GD.
+  - rewrite step'_ret. cbn [step]. destruct (dict_has Z.eqb k (symx w bi)); [apply symx_upd_good|]; exact GD.
+  - rewrite step'_ret. cbn [step]. destruct (dict_has Z.eqb k (symx w bi)); [apply symx_upd_good|]; exact GD.
+  - rewrite step'_ret. cbn [step]. destruct (symx w bi); [|apply symx_upd_good]; exact GD.
+  - rewrite step'_ret. cbn [step]. destruct (dict_has Z.eqb k (symx w bi)); [|apply symx_upd_good]; exact GD.
+  - rewrite step'_ret. cbn [step ret]. apply symx_upd_good. exact GD.
+  - rewrite step'_ret. cbn [step ret]. apply symx_upd_good. exact GD.
+  - rewrite step'_ret. cbn [step ret]. apply symx_upd_good. exact GD.
+  - (* OTouch *) rewrite step'_ret. cbn [step ret]. apply force_good. exact GD.
+Qed.
+
+(* ================================================================== *)
+(** * Part 2: everything but the [tree] component is schedule independent *)
+
+Definition strip (w : world) : world := set_tree w (fun _ => lt_empty).
+Definition is_touch (o : op) : bool := match o with OTouch _ => true | _ => false end.
+
+(* equal up to the lazy trees *)
+Definition seq (w1 w2 : world) : Prop := strip w1 = strip w2.
+Definition seqp {B : Type} (r1 r2 : world * B) : Prop := seq (fst r1) (fst r2) /\ snd r1 = snd r2.
+Definition seqr (r1 r2 : res world) : Prop :=
+  match r1, r2 with
+  | Ok a, Ok b => seq a b
+  | Err e1, Err e2 => e1 = e2
+  | _, _ => False
+  end.
+
+Lemma seq_refl : forall w, seq w w. Proof. reflexivity. Qed.
+Lemma seq_sym : forall a b, seq a b -> seq b a. Proof. unfold seq. intros. congruence. Qed.
+Lemma seq_trans : forall a b c, seq a b -> seq b c -> seq a c. Proof. unfold seq. intros. congruence. Qed.
+
+Lemma seq_repr : forall w1 w2, seq w1 w2 -> w2 = set_tree w1 (tree w2).
+Proof.
+  intros [n1 k1 c1 x1 r1 t1 s1] [n2 k2 c2 x2 r2 t2 s2] H. unfold seq, strip, set_tree in H. cbn in H.
+  injection H as H1 H2 H3 H4 H5 H6. subst. reflexivity.
+Qed.
+
+Lemma seq_set_tree : forall w t, seq w (set_tree w t).
+Proof. reflexivity. Qed.
+
+Lemma seq_set_tree2 : forall w1 w2 t1 t2, seq w1 w2 -> seq (set_tree w1 t1) (set_tree w2 t2).
+Proof. intros w1 w2 t1 t2 H. rewrite (seq_repr _ _ H). reflexivity. Qed.
+
+(* accessors *)
+Lemma seq_nodes : forall w1 w2, seq w1 w2 -> nodes w1 = nodes w2.
+Proof. intros w1 w2 H. rewrite (seq_repr _ _ H). reflexivity. Qed.
+Lemma seq_kids : forall w1 w2, seq w1 w2 -> kids w1 = kids w2.
+Proof. intros w1 w2 H. rewrite (seq_repr _ _ H). reflexivity. Qed.
+Lemma seq_cache : forall w1 w2, seq w1 w2 -> cache w1 = cache w2.
+Proof. intros w1 w2 H. rewrite (seq_repr _ _ H). reflexivity. Qed.
+Lemma seq_symx : forall w1 w2, seq w1 w2 -> symx w1 = symx w2.
+Proof. intros w1 w2 H. rewrite (seq_repr _ _ H). reflexivity. Qed.
+Lemma seq_getn : forall w1 w2 n, seq w1 w2 -> getn w1 n = getn w2 n.
+Proof. intros w1 w2 n H. rewrite (seq_repr _ _ H). reflexivity. Qed.
+Lemma seq_kindof : forall w1 w2 n, seq w1 w2 -> kindof w1 n = kindof w2 n.
+Proof. intros w1 w2 n H. rewrite (seq_repr _ _ H). reflexivity. Qed.
+Lemma seq_par : forall w1 w2 n, seq w1 w2 -> par w1 n = par w2 n.
+Proof. intros w1 w2 n H. rewrite (seq_repr _ _ H). reflexivity. Qed.
+Lemma seq_ir_of : forall w1 w2 n, seq w1 w2 -> ir_of w1 n = ir_of w2 n.
+Proof. intros w1 w2 n H. rewrite (seq_repr _ _ H). reflexivity. Qed.
+Lemma seq_field : forall w1 w2 p fk, seq w1 w2 -> field w1 p fk = field w2 p fk.
+Proof. intros w1 w2 p fk H. rewrite (seq_repr _ _ H). reflexivity. Qed.
+Lemma seq_op_okb : forall w1 w2 known o, seq w1 w2 -> op_okb w1 known o = op_okb w2 known o.
+Proof. intros w1 w2 known o H. rewrite (seq_repr _ _ H). destruct o; reflexivity. Qed.
+
+(* basic primitives *)
+Lemma seq_setn : forall w1 w2 n x, seq w1 w2 -> seq (setn w1 n x) (setn w2 n x).
+Proof. intros w1 w2 n x H. rewrite (seq_repr _ _ H). reflexivity. Qed.
+Lemma seq_set_par : forall w1 w2 c p, seq w1 w2 -> seq (set_par w1 c p) (set_par w2 c p).
+Proof. intros w1 w2 c p H. rewrite (seq_repr _ _ H). reflexivity. Qed.
+Lemma seq_set_kids : forall w1 w2 f, seq w1 w2 -> seq (set_kids w1 f) (set_kids w2 f).
+Proof. intros w1 w2 f H. rewrite (seq_repr _ _ H). reflexivity. Qed.
+Lemma seq_set_cache : forall w1 w2 f, seq w1 w2 -> seq (set_cache w1 f) (set_cache w2 f).
+Proof. intros w1 w2 f H. rewrite (seq_repr _ _ H). reflexivity. Qed.
+Lemma seq_symx_upd : forall w1 w2 bi d, seq w1 w2 -> seq (symx_upd w1 bi d) (symx_upd w2 bi d).
+Proof. intros w1 w2 bi d H. rewrite (seq_repr _ _ H). reflexivity. Qed.
+Lemma seq_drop_kid : forall w1 w2 p c, seq w1 w2 -> seq (drop_kid w1 p c) (drop_kid w2 p c).
+Proof. intros w1 w2 p c H. rewrite (seq_repr _ _ H). reflexivity. Qed.
+Lemma seq_push_kid : forall w1 w2 p c, seq w1 w2 -> seq (push_kid w1 p c) (push_kid w2 p c).
+Proof. intros w1 w2 p c H. rewrite (seq_repr _ _ H). reflexivity. Qed.
+Lemma seq_cache_add : forall w1 w2 ir c, seq w1 w2 -> seq (cache_add w1 ir c) (cache_add w2 ir c).
+Proof. intros w1 w2 ir c H. rewrite (seq_repr _ _ H). reflexivity. Qed.
+Lemma seqp_cache_remove : forall w1 w2 ir c, seq w1 w2 -> seqp (cache_remove w1 ir c) (cache_remove w2 ir c).
+Proof. intros w1 w2 ir c H. rewrite (seq_repr _ _ H). split; reflexivity. Qed.
+Lemma seq_tree_add_ev : forall w1 w2 p o1 o2, seq w1 w2 -> seq (tree_add_ev w1 p o1) (tree_add_ev w2 p o2).
+Proof. intros w1 w2 p o1 o2 H. rewrite (seq_repr _ _ H). reflexivity. Qed.
+Lemma seq_tree_disc_ev : forall w1 w2 p o1 o2, seq w1 w2 -> seq (tree_disc_ev w1 p o1) (tree_disc_ev w2 p o2).
+Proof. intros w1 w2 p o1 o2 H. rewrite (seq_repr _ _ H). reflexivity. Qed.
+
+Lemma seq_mod_index_discard : forall w1 w2 m n, seq w1 w2 -> seq (mod_index_discard w1 m n) (mod_index_discard w2 m n).
+Proof.
+  intros w1 w2 m n H. rewrite (seq_repr _ _ H). unfold mod_index_discard.
+  change (kindof (set_tree w1 (tree w2)) n) with (kindof w1 n).
+  change (getn (set_tree w1 (tree w2)) n) with (getn w1 n).
+  destruct (kindof w1 n); try reflexivity. cbv zeta. destruct (referent (getn w1 n)); reflexivity.
+Qed.
+
+Lemma seq_mod_index_add : forall w1 w2 m n, seq w1 w2 -> seq (mod_index_add w1 m n) (mod_index_add w2 m n).
+Proof.
+  intros w1 w2 m n H. rewrite (seq_repr _ _ H). unfold mod_index_add.
+  change (kindof (set_tree w1 (tree w2)) n) with (kindof w1 n).
+  change (getn (set_tree w1 (tree w2)) n) with (getn w1 n).
+  destruct (kindof w1 n); try reflexivity. cbv zeta. destruct (referent (getn w1 n)); reflexivity.
+Qed.
+
+(* composite primitives *)
+Lemma seqp_mk : forall (B : Type) a1 a2 (b1 b2 : B), seq a1 a2 -> b1 = b2 -> seqp (a1, b1) (a2, b2).
+Proof. intros. split; assumption. Qed.
+
+Lemma seqp_discard_tail : forall a1 a2 p c, seq a1 a2 ->
+  seqp (let '(w3, ok) := match ir_of a1 p with Some ir => cache_remove a1 ir c | None => (a1, true) end in
+        (drop_kid w3 p c, ok))
+       (let '(w3, ok) := match ir_of a2 p with Some ir => cache_remove a2 ir c | None => (a2, true) end in
+        (drop_kid w3 p c, ok)).
+Proof.
+  intros a1 a2 p c H. rewrite (seq_ir_of _ _ p H). destruct (ir_of a2 p) as [ir|].
+  - destruct (seqp_cache_remove _ _ ir c H) as [Hw Hs].
+    destruct (cache_remove a1 ir c) as [x1 o1], (cache_remove a2 ir c) as [x2 o2]. cbn [fst snd] in *.
+    apply seqp_mk; [apply seq_drop_kid; exact Hw|exact Hs].
+  - apply seqp_mk; [apply seq_drop_kid; exact H|reflexivity].
+Qed.
+
+Lemma seqp_set_discard : forall w1 w2 p c, seq w1 w2 -> seqp (set_discard w1 p c) (set_discard w2 p c).
+Proof.
+  intros w1 w2 p c H. unfold set_discard. rewrite (seq_kids _ _ H), (seq_kindof _ _ p H).
+  destruct (negb (mem c (kids w2 p))); [apply seqp_mk; [exact H|reflexivity]|].
+  destruct (kindof w2 p); try (apply seqp_mk; [exact H|reflexivity]).
+  - apply seqp_discard_tail. apply seq_mod_index_discard, seq_set_par, H.
+  - apply seqp_discard_tail. apply seq_set_par, seq_tree_disc_ev, H.
+  - apply seqp_discard_tail. apply seq_set_par, seq_tree_disc_ev, H.
+Qed.
+
+Lemma seqp_detach : forall w1 w2 c, seq w1 w2 ->
+  seqp (match par w1 c with Some old => set_discard w1 old c | None => (w1, true) end)
+       (match par w2 c with Some old => set_discard w2 old c | None => (w2, true) end).
+Proof.
+  intros w1 w2 c H. rewrite (seq_par _ _ c H). destruct (par w2 c) as [old|].
+  - apply seqp_set_discard. exact H.
+  - apply seqp_mk; [exact H|reflexivity].
+Qed.
+
+Lemma seq_cache_add_tail : forall a1 a2 p c, seq a1 a2 ->
+  seq (match ir_of a1 p with Some ir => cache_add a1 ir c | None => a1 end)
+      (match ir_of a2 p with Some ir => cache_add a2 ir c | None => a2 end).
+Proof.
+  intros a1 a2 p c H. rewrite (seq_ir_of _ _ p H). destruct (ir_of a2 p) as [ir|]; [apply seq_cache_add|]; exact H.
+Qed.
+
+Lemma seqp_set_add1 : forall w1 w2 p c, seq w1 w2 -> seqp (set_add1 w1 p c) (set_add1 w2 p c).
+Proof.
+  intros w1 w2 p c H. unfold set_add1. rewrite (seq_kindof _ _ p H).
+  destruct (kindof w2 p); try (apply seqp_mk; [exact H|reflexivity]).
+  - destruct (seqp_detach w1 w2 c H) as [Hw Hs].
+    destruct (match par w1 c with Some old => _ | None => _ end) as [x1 o1].
+    destruct (match par w2 c with Some old => _ | None => _ end) as [x2 o2]. cbn [fst snd] in *.
+    apply seqp_mk; [|exact Hs]. apply seq_push_kid, seq_cache_add_tail, seq_mod_index_add, seq_set_par, Hw.
+  - destruct (seqp_detach w1 w2 c H) as [Hw Hs].
+    destruct (match par w1 c with Some old => _ | None => _ end) as [x1 o1].
+    destruct (match par w2 c with Some old => _ | None => _ end) as [x2 o2]. cbn [fst snd] in *.
+    apply seqp_mk; [|exact Hs]. apply seq_push_kid, seq_cache_add_tail, seq_set_par, seq_tree_add_ev, Hw.
+Qed.
+
+Lemma seqp_fold_left : forall (B X : Type) (F : world * B -> X -> world * B),
+  (forall s1 s2 v, seqp s1 s2 -> seqp (F s1 v) (F s2 v)) ->
+  forall l s1 s2, seqp s1 s2 -> seqp (fold_left F l s1) (fold_left F l s2).
+Proof.
+  intros B X F HF l. induction l as [|a l IH]; intros s1 s2 H; [exact H|].
+  cbn [fold_left]. apply IH. apply HF. exact H.
+Qed.
+
+Lemma seq_fold_left : forall (X : Type) (G : world -> X -> world),
+  (forall a1 a2 v, seq a1 a2 -> seq (G a1 v) (G a2 v)) ->
+  forall l a1 a2, seq a1 a2 -> seq (fold_left G l a1) (fold_left G l a2).
+Proof.
+  intros X G HG l. induction l as [|a l IH]; intros a1 a2 H; [exact H|].
+  cbn [fold_left]. apply IH. apply HG. exact H.
+Qed.
+
+Lemma seqp_fold_ok : forall f l w1 w2,
+  (forall a1 a2 v, seq a1 a2 -> seqp (f a1 v) (f a2 v)) ->
+  seq w1 w2 -> seqp (fold_ok f l w1) (fold_ok f l w2).
+Proof.
+  intros f l w1 w2 Hf H. unfold fold_ok. apply seqp_fold_left; [|apply seqp_mk; [exact H|reflexivity]].
+  intros [a1 b1] [a2 b2] v [Ha Hb]. cbn [fst snd] in *. subst b2.
+  destruct (Hf a1 a2 v Ha) as [Hw Hs]. destruct (f a1 v) as [x1 o1], (f a2 v) as [x2 o2]. cbn [fst snd] in *.
+  apply seqp_mk; [exact Hw|rewrite Hs; reflexivity].
+Qed.
+
+Lemma seqp_blocks_update : forall w1 w2 bi items, seq w1 w2 ->
+  seqp (blocks_update w1 bi items) (blocks_update w2 bi items).
+Proof.
+  intros w1 w2 bi items H. unfold blocks_update. rewrite (seq_ir_of _ _ bi H), (seq_kids _ _ H).
+  cbv zeta. set (l := filter (fun v => negb (mem v (kids w2 bi))) (dedup items)).
+  match goal with |- context [fold_left ?F l (w1, true)] => set (FF := F) end.
+  assert (HF : seqp (fold_left FF l (w1, true)) (fold_left FF l (w2, true))).
+  { apply seqp_fold_left; [|apply seqp_mk; [exact H|reflexivity]].
+    intros [a1 b1] [a2 b2] v [Ha Hb]. cbn [fst snd] in *. subst b2. unfold FF.
+    destruct (seqp_detach a1 a2 v Ha) as [Hw Hs].
+    destruct (match par a1 v with Some old => _ | None => _ end) as [x1 o1].
+    destruct (match par a2 v with Some old => _ | None => _ end) as [x2 o2]. cbn [fst snd] in *.
+    apply seqp_mk; [|rewrite Hs; reflexivity].
+    destruct (ir_of w2 bi) as [ir|]; [apply seq_cache_add|]; apply seq_set_par, Hw. }
+  destruct HF as [Hw Hs].
+  destruct (fold_left FF l (w1, true)) as [x1 o1], (fold_left FF l (w2, true)) as [x2 o2]. cbn [fst snd] in *.
+  apply seqp_mk; [|exact Hs].
+  apply seq_fold_left; [intros; apply seq_push_kid; assumption|].
+  apply seq_fold_left; [intros; apply seq_tree_add_ev; assumption|]. exact Hw.
+Qed.
+
+Lemma seqp_set_add : forall w1 w2 p c, seq w1 w2 -> seqp (set_add w1 p c) (set_add w2 p c).
+Proof.
+  intros w1 w2 p c H. unfold set_add. rewrite (seq_kindof _ _ p H).
+  destruct (kindof w2 p); try (apply seqp_set_add1; exact H). apply seqp_blocks_update. exact H.
+Qed.
+
+(* results *)
+Lemma seqr_flagged : forall r1 r2, seqp r1 r2 -> seqr (flagged r1) (flagged r2).
+Proof.
+  intros [a1 b1] [a2 b2] [Ha Hb]. cbn [fst snd flagged] in *. subst b2. destruct b1; cbn; [exact Ha|reflexivity].
+Qed.
+
+Lemma seq_ret : forall w1 w2 r1 r2, seq w1 w2 -> seqr r1 r2 -> seq (ret w1 r1) (ret w2 r2).
+Proof.
+  intros w1 w2 [a1|e1] [a2|e2] H Hr; cbn in *; try contradiction; assumption.
+Qed.
+
+Lemma seqr_bind : forall r1 r2 (f1 f2 : world -> res world), seqr r1 r2 ->
+  (forall a b, seq a b -> seqr (f1 a) (f2 b)) -> seqr (bind r1 f1) (bind r2 f2).
+Proof.
+  intros [a1|e1] [a2|e2] f1 f2 Hr Hf; cbn in *; try contradiction; [apply Hf; exact Hr|exact Hr].
+Qed.
+
+Lemma seqr_ok : forall a b, seq a b -> seqr (Ok a) (Ok b).
+Proof. intros a b H. exact H. Qed.
+
+Lemma seqr_err : forall e, seqr (Err e) (Err e).
+Proof. intros e. reflexivity. Qed.
+
+(* module-list primitives *)
+Lemma seqp_ml_remove_hook : forall w1 w2 ir v, seq w1 w2 -> seqp (ml_remove_hook w1 ir v) (ml_remove_hook w2 ir v).
+Proof. intros. unfold ml_remove_hook. apply seqp_cache_remove, seq_set_par. assumption. Qed.
+
+Lemma seq_set_kids_at : forall a1 a2 ir (g : list id -> list id), seq a1 a2 ->
+  seq (set_kids a1 (upd (kids a1) ir (g (kids a1 ir)))) (set_kids a2 (upd (kids a2) ir (g (kids a2 ir)))).
+Proof. intros a1 a2 ir g H. rewrite (seq_kids _ _ H). apply seq_set_kids. exact H. Qed.
+
+Lemma seqp_ml_del_at : forall w1 w2 ir i, seq w1 w2 -> seqp (ml_del_at w1 ir i) (ml_del_at w2 ir i).
+Proof.
+  intros w1 w2 ir i H. unfold ml_del_at. rewrite (seq_kids _ _ H).
+  destruct (nth_error (kids w2 ir) i) as [v|]; [|apply seqp_mk; [exact H|reflexivity]].
+  destruct (seqp_ml_remove_hook w1 w2 ir v H) as [Hw Hs].
+  destruct (ml_remove_hook w1 ir v) as [x1 o1], (ml_remove_hook w2 ir v) as [x2 o2]. cbn [fst snd] in *.
+  apply seqp_mk; [|exact Hs]. apply (seq_set_kids_at x1 x2 ir (remove_at i)). exact Hw.
+Qed.
+
+Lemma seqp_ml_remove_or : forall w1 w2 ir v, seq w1 w2 ->
+  seqp (match ml_remove w1 ir v with Ok r => r | Err _ => (w1, false) end)
+       (match ml_remove w2 ir v with Ok r => r | Err _ => (w2, false) end).
+Proof.
+  intros w1 w2 ir v H. unfold ml_remove. rewrite (seq_kids _ _ H).
+  destruct (index_of v (kids w2 ir)) as [i|]; [apply seqp_ml_del_at; exact H|apply seqp_mk; [exact H|reflexivity]].
+Qed.
+
+Lemma seqr_ml_remove : forall w1 w2 ir v, seq w1 w2 ->
+  seqr (do r <- ml_remove w1 ir v; flagged r) (do r <- ml_remove w2 ir v; flagged r).
+Proof.
+  intros w1 w2 ir v H. unfold ml_remove. rewrite (seq_kids _ _ H).
+  destruct (index_of v (kids w2 ir)) as [i|]; cbn [bind]; [|reflexivity].
+  apply seqr_flagged, seqp_ml_del_at. exact H.
+Qed.
+
+Lemma seqp_ml_add_hook : forall w1 w2 ir v, seq w1 w2 -> seqp (ml_add_hook w1 ir v) (ml_add_hook w2 ir v).
+Proof.
+  intros w1 w2 ir v H. unfold ml_add_hook.
+  assert (HP : seqp (match par w1 v with
+                     | Some old => match ml_remove w1 old v with Ok r => r | Err _ => (w1, false) end
+                     | None => (w1, true) end)
+                    (match par w2 v with
+                     | Some old => match ml_remove w2 old v with Ok r => r | Err _ => (w2, false) end
+                     | None => (w2, true) end)).
+  { rewrite (seq_par _ _ v H). destruct (par w2 v) as [old|]; [apply seqp_ml_remove_or; exact H|].
+    apply seqp_mk; [exact H|reflexivity]. }
+  destruct HP as [Hw Hs].
+  destruct (match par w1 v with Some old => _ | None => _ end) as [x1 o1].
+  destruct (match par w2 v with Some old => _ | None => _ end) as [x2 o2]. cbn [fst snd] in *.
+  apply seqp_mk; [|exact Hs]. apply seq_cache_add, seq_set_par, Hw.
+Qed.
+
+Lemma seqp_ml_insert : forall w1 w2 ir i v, seq w1 w2 -> seqp (ml_insert w1 ir i v) (ml_insert w2 ir i v).
+Proof.
+  intros w1 w2 ir i v H. unfold ml_insert.
+  destruct (seqp_ml_add_hook w1 w2 ir v H) as [Hw Hs].
+  destruct (ml_add_hook w1 ir v) as [x1 o1], (ml_add_hook w2 ir v) as [x2 o2]. cbn [fst snd] in *.
+  apply seqp_mk; [|exact Hs].
+  apply (seq_set_kids_at x1 x2 ir (fun l => insert_at (clamp_insert i (length l)) v l)). exact Hw.
+Qed.
+
+Lemma seqp_ml_append : forall w1 w2 ir v, seq w1 w2 -> seqp (ml_append w1 ir v) (ml_append w2 ir v).
+Proof. intros w1 w2 ir v H. unfold ml_append. rewrite (seq_kids _ _ H). apply seqp_ml_insert. exact H. Qed.
+
+(* attribute setters *)
+Lemma seq_setn_f : forall a1 a2 b (f : node -> node), seq a1 a2 ->
+  seq (setn a1 b (f (getn a1 b))) (setn a2 b (f (getn a2 b))).
+Proof. intros a1 a2 b f H. rewrite (seq_getn _ _ b H). apply seq_setn. exact H. Qed.
+
+Lemma seq_block_attr : forall w1 w2 b f, seq w1 w2 -> seq (block_attr w1 b f) (block_attr w2 b f).
+Proof.
+  intros w1 w2 b f H. unfold block_attr. rewrite (seq_par _ _ b H). destruct (par w2 b) as [bi|].
+  - apply seq_tree_add_ev, seq_setn_f, seq_tree_disc_ev, H.
+  - apply seq_setn_f, H.
+Qed.
+
+Lemma seq_bi_attr : forall w1 w2 b f, seq w1 w2 -> seq (bi_attr w1 b f) (bi_attr w2 b f).
+Proof.
+  intros w1 w2 b f H. unfold bi_attr. rewrite (seq_par _ _ b H). destruct (par w2 b) as [bi|].
+  - apply seq_tree_add_ev, seq_setn_f, seq_tree_disc_ev, H.
+  - apply seq_setn_f, H.
+Qed.
+
+Lemma seq_sym_attr : forall w1 w2 s f, seq w1 w2 -> seq (sym_attr w1 s f) (sym_attr w2 s f).
+Proof.
+  intros w1 w2 s f H. unfold sym_attr. rewrite (seq_par _ _ s H). destruct (par w2 s) as [m|].
+  - apply seq_mod_index_add, seq_setn_f, seq_mod_index_discard, H.
+  - apply seq_setn_f, H.
+Qed.
+
+(* set methods and parent setters *)
+Lemma seqr_do_set : forall w1 w2 p fk m args, seq w1 w2 -> seqr (do_set w1 p fk m args) (do_set w2 p fk m args).
+Proof.
+  intros w1 w2 p fk m args H. unfold do_set. cbv zeta. rewrite (seq_field _ _ p fk H), (seq_kindof _ _ p H).
+  generalize (match args with a :: _ => a | [] => [] end). intros arg1.
+  destruct m.
+  - destruct arg1 as [|c [|c' r]]; try apply seqr_err. apply seqr_flagged, seqp_set_add, H.
+  - destruct arg1 as [|c [|c' r]]; try apply seqr_err. apply seqr_flagged, seqp_set_discard, H.
+  - destruct arg1 as [|c [|c' r]]; try apply seqr_err. destruct (mem c (field w2 p fk)); [|apply seqr_err].
+    apply seqr_flagged, seqp_set_discard, H.
+  - destruct (field w2 p fk) as [|x xs]; [apply seqr_err|].
+    destruct arg1 as [|c [|c' r]]; try apply seqr_err. destruct (mem c (x :: xs)); [|apply seqr_err].
+    apply seqr_flagged, seqp_set_discard, H.
+  - apply seqr_flagged, seqp_fold_ok; [|exact H]. intros; apply seqp_set_discard; assumption.
+  - destruct (kindof w2 p);
+    try (apply seqr_flagged, seqp_fold_ok; [|exact H]; intros; apply seqp_set_add; assumption).
+    apply seqr_flagged, seqp_blocks_update, H.
+  - apply seqr_flagged, seqp_fold_ok; [|exact H]. intros; apply seqp_set_add; assumption.
+  - apply seqr_flagged, seqp_fold_ok; [|exact H]. intros; apply seqp_set_discard; assumption.
+  - apply seqr_flagged, seqp_fold_ok; [|exact H]. intros; apply seqp_set_discard; assumption.
+  - apply seqr_flagged, seqp_fold_ok; [|exact H]. intros a1 a2 v Ha.
+    rewrite (seq_field _ _ p fk Ha). destruct (mem v (field a2 p fk)); [apply seqp_set_discard|apply seqp_set_add]; exact Ha.
+Qed.
+
+Lemma seqr_do_setparent : forall w1 w2 c p, seq w1 w2 -> seqr (do_setparent w1 c p) (do_setparent w2 c p).
+Proof.
+  intros w1 w2 c p H. unfold do_setparent. rewrite (seq_kindof _ _ c H), (seq_par _ _ c H).
+  assert (Hother : seqr
+    (do w1' <- match par w2 c with Some old => flagged (set_discard w1 old c) | None => Ok w1 end;
+     match p with Some q => flagged (set_add w1' q c) | None => Ok w1' end)
+    (do w1' <- match par w2 c with Some old => flagged (set_discard w2 old c) | None => Ok w2 end;
+     match p with Some q => flagged (set_add w1' q c) | None => Ok w1' end)).
+  { apply seqr_bind.
+    - destruct (par w2 c) as [old|]; [apply seqr_flagged, seqp_set_discard, H|exact H].
+    - intros a b Hab. destruct p as [q|]; [apply seqr_flagged, seqp_set_add, Hab|exact Hab]. }
+  destruct (kindof w2 c); try exact Hother; [apply seqr_err|].
+  apply seqr_bind.
+  - destruct (par w2 c) as [old|]; [apply seqr_ml_remove; exact H|exact H].
+  - intros a b Hab. destruct p as [q|]; [apply seqr_flagged, seqp_ml_append, Hab|exact Hab].
+Qed.
+
+Lemma seqr_step : forall w1 w2 o, seq w1 w2 -> is_touch o = false -> seqr (step w1 o) (step w2 o).
+Proof.
+  intros w1 w2 o H T.
+  destruct o as [n k u a s f nm p | c p | p fk m args | ir v | ir i v | ir vs | ir v | ir i | ir i | ir a b
+              | ir i v | ir a b vs | ir | ir | bi a | n s | b o' | s nm | s p | bi k e | bi k | bi k | bi
+              | bi k e | bi kvs | bi | bi kvs | n]; cbn [step]; try discriminate T.
+  - (* ONew *) cbv zeta. apply seqr_ok.
+    set (x := {| nk := k; nuuid := u; npar := None; naddr := a; nsize := s; noff := f; nname := nm; npay := p |}).
+    pose proof (seq_setn w1 w2 n x H) as Hs.
+    destruct k; try exact Hs. rewrite (seq_cache _ _ Hs). apply seq_set_cache. exact Hs.
+  - apply seqr_do_setparent. exact H.
+  - apply seqr_do_set. exact H.
+  - apply seqr_flagged, seqp_ml_append, H.
+  - apply seqr_flagged, seqp_ml_insert, H.
+  - apply seqr_flagged, seqp_fold_ok; [|exact H]. intros; apply seqp_ml_append; assumption.
+  - apply seqr_ml_remove. exact H.
+  - rewrite (seq_kids _ _ H). destruct (norm_index i (length (kids w2 ir))) as [k|]; [|apply seqr_err].
+    apply seqr_flagged, seqp_ml_del_at, H.
+  - rewrite (seq_kids _ _ H). destruct (norm_index i (length (kids w2 ir))) as [k|]; [|apply seqr_err].
+    apply seqr_flagged, seqp_ml_del_at, H.
+  - (* delslice *) rewrite (seq_kids _ _ H). cbv zeta.
+    match goal with |- context [fold_ok ?f ?l w1] =>
+      assert (HP : seqp (fold_ok f l w1) (fold_ok f l w2))
+        by (apply seqp_fold_ok; [intros; apply seqp_ml_remove_hook; assumption|exact H]);
+      destruct HP as [Hw Hs]; destruct (fold_ok f l w1) as [x1 o1], (fold_ok f l w2) as [x2 o2];
+      set (victims := l) in *
+    end.
+    cbn [fst snd] in *. apply seqr_flagged, seqp_mk; [|exact Hs].
+    apply (seq_set_kids_at x1 x2 ir (filter (fun v => negb (mem v victims)))). exact Hw.
+  - (* setitem *) rewrite (seq_kids _ _ H).
+    destruct (norm_index i (length (kids w2 ir))) as [k|]; [|apply seqr_err].
+    destruct (nth_error (kids w2 ir) k) as [old|]; [|apply seqr_err].
+    destruct (mem v (kids w2 ir) && negb (v =? old)); [apply seqr_err|].
+    destruct (seqp_ml_remove_hook w1 w2 ir old H) as [Hw1 Hs1].
+    destruct (ml_remove_hook w1 ir old) as [x1 o1], (ml_remove_hook w2 ir old) as [x2 o2]. cbn [fst snd] in *.
+    destruct (seqp_ml_add_hook x1 x2 ir v Hw1) as [Hw2 Hs2].
+    destruct (ml_add_hook x1 ir v) as [y1 q1], (ml_add_hook x2 ir v) as [y2 q2]. cbn [fst snd] in *.
+    apply seqr_flagged, seqp_mk; [|rewrite Hs1, Hs2; reflexivity].
+    apply (seq_set_kids_at y1 y2 ir (set_at k v)). exact Hw2.
+  - (* setslice *) rewrite (seq_kids _ _ H). cbv zeta.
+    match goal with |- context [if ?c then Err EImpossible else _] => destruct c end; [apply seqr_err|].
+    match goal with |- context [fold_ok ?f ?l w1] =>
+      assert (HP : seqp (fold_ok f l w1) (fold_ok f l w2))
+        by (apply seqp_fold_ok; [intros; apply seqp_ml_remove_hook; assumption|exact H]);
+      destruct HP as [Hw1 Hs1]; destruct (fold_ok f l w1) as [x1 o1], (fold_ok f l w2) as [x2 o2]
+    end.
+    cbn [fst snd] in *.
+    assert (HP : seqp (fold_ok (fun w v => ml_add_hook w ir v) vs x1) (fold_ok (fun w v => ml_add_hook w ir v) vs x2))
+      by (apply seqp_fold_ok; [intros; apply seqp_ml_add_hook; assumption|exact Hw1]).
+    destruct HP as [Hw2 Hs2].
+    destruct (fold_ok (fun w v => ml_add_hook w ir v) vs x1) as [y1 q1].
+    destruct (fold_ok (fun w v => ml_add_hook w ir v) vs x2) as [y2 q2]. cbn [fst snd] in *.
+    apply seqr_flagged, seqp_mk; [|rewrite Hs1, Hs2; reflexivity].
+    rewrite (seq_kids _ _ Hw2). apply seq_set_kids. exact Hw2.
+  - (* clear *) rewrite (seq_kids _ _ H).
+    assert (HP : seqp (fold_ok (fun w v => ml_remove_hook w ir v) (rev (kids w2 ir)) w1)
+                      (fold_ok (fun w v => ml_remove_hook w ir v) (rev (kids w2 ir)) w2))
+      by (apply seqp_fold_ok; [intros; apply seqp_ml_remove_hook; assumption|exact H]).
+    destruct HP as [Hw Hs].
+    destruct (fold_ok (fun w v => ml_remove_hook w ir v) (rev (kids w2 ir)) w1) as [x1 o1].
+    destruct (fold_ok (fun w v => ml_remove_hook w ir v) (rev (kids w2 ir)) w2) as [x2 o2]. cbn [fst snd] in *.
+    apply seqr_flagged, seqp_mk; [|exact Hs].
+    rewrite (seq_kids _ _ Hw). apply seq_set_kids. exact Hw.
+  - (* reverse *) apply seqr_ok. rewrite (seq_kids _ _ H). apply seq_set_kids. exact H.
+  - apply seqr_ok, seq_bi_attr, H.
+  - rewrite (seq_kindof _ _ n H). destruct (kindof w2 n); apply seqr_ok; try (apply seq_block_attr, H).
+    apply seq_bi_attr, H.
+  - apply seqr_ok, seq_block_attr, H.
+  - apply seqr_ok, seq_sym_attr, H.
+  - apply seqr_ok, seq_sym_attr, H.
+  - rewrite (seq_symx _ _ H). apply seqr_ok, seq_symx_upd, H.
+  - rewrite (seq_symx _ _ H). destruct (dict_has Z.eqb k (symx w2 bi)); [|apply seqr_err]. apply seqr_ok, seq_symx_upd, H.
+  - rewrite (seq_symx _ _ H). destruct (dict_has Z.eqb k (symx w2 bi)); [|apply seqr_err]. apply seqr_ok, seq_symx_upd, H.
+  - rewrite (seq_symx _ _ H). destruct (symx w2 bi); [apply seqr_err|]. apply seqr_ok, seq_symx_upd, H.
+  - rewrite (seq_symx _ _ H). destruct (dict_has Z.eqb k (symx w2 bi)); apply seqr_ok; [exact H|apply seq_symx_upd, H].
+  - rewrite (seq_symx _ _ H). apply seqr_ok, seq_symx_upd, H.
+  - apply seqr_ok, seq_symx_upd, H.
+  - apply seqr_ok, seq_symx_upd, H.
+Qed.
+
+Lemma step_strip : forall w1 w2 o, strip w1 = strip w2 -> is_touch o = false ->
+  strip (step' w1 o) = strip (step' w2 o) /\ (forall known, op_okb w1 known o = op_okb w2 known o).
+Proof.
+  intros w1 w2 o H T. split.
+  - rewrite !step'_ret. apply seq_ret; [exact H|apply seqr_step; assumption].
+  - intros known. apply seq_op_okb. exact H.
+Qed.
+
+Lemma touch_strip : forall w n, strip (step' w (OTouch n)) = strip w.
+Proof. intros w n. rewrite step'_ret. cbn [step ret]. rewrite force_fst. reflexivity. Qed.
+
+Definition not_touch (o : op) : bool := negb (is_touch o).
+
+Lemma run_guarded_filter : forall ops w1 w2 known, seq w1 w2 ->
+  seqp (run_guarded w1 known ops) (run_guarded w2 known (filter not_touch ops)).
+Proof.
+  intros ops. induction ops as [|o ops IH]; intros w1 w2 known H.
+  - apply seqp_mk; [exact H|reflexivity].
+  - cbn [run_guarded filter]. unfold not_touch at 1. destruct (is_touch o) eqn:T; cbn [negb].
+    + destruct o; try discriminate T.
+      destruct (op_okb w1 known (OTouch n)); [|apply IH; exact H].
+      apply IH. eapply seq_trans; [|exact H]. apply touch_strip.
+    + cbn [run_guarded]. destruct (step_strip w1 w2 o H T) as [Hs Hg]. rewrite (Hg known).
+      destruct (op_okb w2 known o); [|apply IH; exact H]. apply IH. exact Hs.
+Qed.
+
+Theorem schedule_struct : forall ops1 ops2,
+  filter (fun o => negb (is_touch o)) ops1 = filter (fun o => negb (is_touch o)) ops2 ->
+  strip (fst (run_guarded w0 [] ops1)) = strip (fst (run_guarded w0 [] ops2)) /\
+  snd (run_guarded w0 [] ops1) = snd (run_guarded w0 [] ops2).
+Proof.
+  intros ops1 ops2 E.
+  destruct (run_guarded_filter ops1 w0 w0 [] (seq_refl w0)) as [A1 B1].
+  destruct (run_guarded_filter ops2 w0 w0 [] (seq_refl w0)) as [A2 B2].
+  change (filter not_touch ops1 = filter not_touch ops2) in E. rewrite E in A1, B1.
+  split.
+  - eapply seq_trans; [exact A1|]. apply seq_sym. exact A2.
+  - congruence.
+Qed.
+
+(* ================================================================== *)
+(** * Lookups only force trees *)
+
+(* w' differs from w only in lazily materialised trees, and stays in sync *)
+Definition lk (w w' : world) : Prop := strip w' = strip w /\ (SyncAll w -> SyncAll w').
+
+Lemma lk_refl : forall w, lk w w.
+Proof. intros w. split; [reflexivity|auto]. Qed.
+
+Lemma lk_trans : forall w w' w'', lk w w' -> lk w' w'' -> lk w w''.
+Proof. intros w w' w'' [A1 B1] [A2 B2]. split; [congruence|auto]. Qed.
+
+Lemma lk_force : forall w n, lk w (fst (force w n)).
+Proof. intros w n. split; [rewrite force_fst; reflexivity|apply force_sync]. Qed.
+
+Definition lookup_ok {R : Type} (f : world -> id -> qrange -> world * R) : Prop :=
+  forall w x q, lk w (fst (f w x q)).
+
+Lemma lk_bi_blocks_on : lookup_ok bi_blocks_on.
+Proof.
+  intros w bi q. unfold bi_blocks_on. destruct (naddr (getn w bi)) as [a|]; [|apply lk_refl].
+  pose proof (lk_force w bi) as H. destruct (force w bi) as [w1 idx]. exact H.
+Qed.
+
+Lemma lk_bi_blocks_at : lookup_ok bi_blocks_at.
+Proof.
+  intros w bi q. unfold bi_blocks_at. destruct (naddr (getn w bi)) as [a|]; [|apply lk_refl].
+  pose proof (lk_force w bi) as H. destruct (force w bi) as [w1 idx]. exact H.
+Qed.
+
+Lemma lk_bi_blocks_on_off : lookup_ok bi_blocks_on_off.
+Proof.
+  intros w bi q. unfold bi_blocks_on_off.
+  pose proof (lk_force w bi) as H. destruct (force w bi) as [w1 idx]. exact H.
+Qed.
+
+Lemma lk_bi_blocks_at_off : lookup_ok bi_blocks_at_off.
+Proof.
+  intros w bi q. unfold bi_blocks_at_off.
+  pose proof (lk_force w bi) as H. destruct (force w bi) as [w1 idx]. exact H.
+Qed.
+
+Lemma lk_sec_bis_on : lookup_ok sec_bis_on.
+Proof.
+  intros w s q. unfold sec_bis_on.
+  pose proof (lk_force w s) as H. destruct (force w s) as [w1 idx]. exact H.
+Qed.
+
+Lemma lk_sec_bis_at : lookup_ok sec_bis_at.
+Proof.
+  intros w s q. unfold sec_bis_at.
+  pose proof (lk_force w s) as H. destruct (force w s) as [w1 idx]. exact H.
+Qed.
+
+Lemma chain_fst : forall f l q w, fst (chain f l q w) = fold_left (fun w x => fst (f w x q)) l w.
+Proof.
+  intros f l q w. unfold chain. apply fold_pair_fst. intros w' b x. destruct (f w' x q); reflexivity.
+Qed.
+
+(* the generic lemma for [chain] *)
+Lemma lk_chain : forall f, lookup_ok f -> forall l q w, lk w (fst (chain f l q w)).
+Proof.
+  intros f Hf l q w. rewrite chain_fst.
+  apply (fold_left_inv id (fun w' => lk w w')); [|apply lk_refl].
+  intros w' x _ H. eapply lk_trans; [exact H|apply Hf].
+Qed.
+
+Lemma lk_sec_blocks_on : lookup_ok sec_blocks_on.
+Proof.
+  intros w s q. unfold sec_blocks_on.
+  pose proof (lk_sec_bis_on w s q) as H. destruct (sec_bis_on w s q) as [w1 bis]. cbn [fst] in H.
+  eapply lk_trans; [exact H|]. apply lk_chain. exact lk_bi_blocks_on.
+Qed.
+
+Lemma lk_sec_blocks_at : lookup_ok sec_blocks_at.
+Proof.
+  intros w s q. unfold sec_blocks_at.
+  pose proof (lk_sec_bis_on w s q) as H. destruct (sec_bis_on w s q) as [w1 bis]. cbn [fst] in H.
+  eapply lk_trans; [exact H|]. apply lk_chain. exact lk_bi_blocks_at.
+Qed.
+
+Lemma lk_sec_extent : forall w s, lk w (fst (sec_extent w s)).
+Proof.
+  intros w s. unfold sec_extent.
+  pose proof (lk_force w s) as H. destruct (force w s) as [w1 idx]. exact H.
+Qed.
+
+Lemma sections_on_fst : forall secs q w,
+  fst (sections_on w secs q) = fold_left (fun w s => fst (sec_extent w s)) secs w.
+Proof.
+  intros secs q w. unfold sections_on. apply fold_pair_fst. intros w' b s.
+  destruct (sec_extent w' s) as [w1 [[a sz]|]]; reflexivity.
+Qed.
+
+Lemma sections_at_fst : forall secs q w,
+  fst (sections_at w secs q) = fold_left (fun w s => fst (sec_extent w s)) secs w.
+Proof.
+  intros secs q w. unfold sections_at. apply fold_pair_fst. intros w' b s.
+  destruct (sec_extent w' s) as [w1 [[a sz]|]]; reflexivity.
+Qed.
+
+Lemma lk_sections_on : forall w secs q, lk w (fst (sections_on w secs q)).
+Proof.
+  intros w secs q. rewrite sections_on_fst.
+  apply (fold_left_inv id (fun w' => lk w w')); [|apply lk_refl].
+  intros w' x _ H. eapply lk_trans; [exact H|apply lk_sec_extent].
+Qed.
+
+Lemma lk_sections_at : forall w secs q, lk w (fst (sections_at w secs q)).
+Proof.
+  intros w secs q. rewrite sections_at_fst.
+  apply (fold_left_inv id (fun w' => lk w w')); [|apply lk_refl].
+  intros w' x _ H. eapply lk_trans; [exact H|apply lk_sec_extent].
+Qed.
+
+Lemma lk_sec_symx_at : lookup_ok sec_symx_at.
+Proof.
+  intros w s q. unfold sec_symx_at.
+  pose proof (lk_sec_bis_on w s q) as H. destruct (sec_bis_on w s q) as [w1 bis]. exact H.
+Qed.
+
+Lemma lk_mod_lift : forall f, lookup_ok f -> lookup_ok (mod_lift f).
+Proof. intros f Hf w m q. unfold mod_lift. apply lk_chain. exact Hf. Qed.
+
+Lemma lk_ir_lift : forall f, lookup_ok f -> lookup_ok (ir_lift f).
+Proof. intros f Hf w ir q. unfold ir_lift. apply lk_chain. apply lk_mod_lift. exact Hf. Qed.
+
+(* the individual statements *)
+Lemma lookup_strip_force : forall w n, strip (fst (force w n)) = strip w.
+Proof. intros. apply lk_force. Qed.
+Lemma lookup_sync_force : forall w n, SyncAll w -> SyncAll (fst (force w n)).
+Proof. intros w n. apply lk_force. Qed.
+
+Lemma lookup_strip_bi_blocks_on : forall w bi q, strip (fst (bi_blocks_on w bi q)) = strip w.
+Proof. intros. apply lk_bi_blocks_on. Qed.
+Lemma lookup_sync_bi_blocks_on : forall w bi q, SyncAll w -> SyncAll (fst (bi_blocks_on w bi q)).
+Proof. intros w bi q. apply lk_bi_blocks_on. Qed.
+
+Lemma lookup_strip_bi_blocks_at : forall w bi q, strip (fst (bi_blocks_at w bi q)) = strip w.
+Proof. intros. apply lk_bi_blocks_at. Qed.
+Lemma lookup_sync_bi_blocks_at : forall w bi q, SyncAll w -> SyncAll (fst (bi_blocks_at w bi q)).
+Proof. intros w bi q. apply lk_bi_blocks_at. Qed.
+
+Lemma lookup_strip_bi_blocks_on_off : forall w bi q, strip (fst (bi_blocks_on_off w bi q)) = strip w.
+Proof. intros. apply lk_bi_blocks_on_off. Qed.
+Lemma lookup_sync_bi_blocks_on_off : forall w bi q, SyncAll w -> SyncAll (fst (bi_blocks_on_off w bi q)).
+Proof. intros w bi q. apply lk_bi_blocks_on_off. Qed.
+
+Lemma lookup_strip_bi_blocks_at_off : forall w bi q, strip (fst (bi_blocks_at_off w bi q)) = strip w.
+Proof. intros. apply lk_bi_blocks_at_off. Qed.
+Lemma lookup_sync_bi_blocks_at_off : forall w bi q, SyncAll w -> SyncAll (fst (bi_blocks_at_off w bi q)).
+Proof. intros w bi q. apply lk_bi_blocks_at_off. Qed.
+
+Lemma lookup_strip_sec_bis_on : forall w s q, strip (fst (sec_bis_on w s q)) = strip w.
+Proof. intros. apply lk_sec_bis_on. Qed.
+Lemma lookup_sync_sec_bis_on : forall w s q, SyncAll w -> SyncAll (fst (sec_bis_on w s q)).
+Proof. intros w s q. apply lk_sec_bis_on. Qed.
+
+Lemma lookup_strip_sec_bis_at : forall w s q, strip (fst (sec_bis_at w s q)) = strip w.
+Proof. intros. apply lk_sec_bis_at. Qed.
+Lemma lookup_sync_sec_bis_at : forall w s q, SyncAll w -> SyncAll (fst (sec_bis_at w s q)).
+Proof. intros w s q. apply lk_sec_bis_at. Qed.
+
+Lemma lookup_strip_sec_blocks_on : forall w s q, strip (fst (sec_blocks_on w s q)) = strip w.
+Proof. intros. apply lk_sec_blocks_on. Qed.
+Lemma lookup_sync_sec_blocks_on : forall w s q, SyncAll w -> SyncAll (fst (sec_blocks_on w s q)).
+Proof. intros w s q. apply lk_sec_blocks_on. Qed.
+
+Lemma lookup_strip_sec_blocks_at : forall w s q, strip (fst (sec_blocks_at w s q)) = strip w.
+Proof. intros. apply lk_sec_blocks_at. Qed.
+Lemma lookup_sync_sec_blocks_at : forall w s q, SyncAll w -> SyncAll (fst (sec_blocks_at w s q)).
+Proof. intros w s q. apply lk_sec_blocks_at. Qed.
+
+Lemma lookup_strip_sec_extent : forall w s, strip (fst (sec_extent w s)) = strip w.
+Proof. intros. apply lk_sec_extent. Qed.
+Lemma lookup_sync_sec_extent : forall w s, SyncAll w -> SyncAll (fst (sec_extent w s)).
+Proof. intros w s. apply lk_sec_extent. Qed.
+
+Lemma lookup_strip_sections_on : forall w secs q, strip (fst (sections_on w secs q)) = strip w.
+Proof. intros. apply lk_sections_on. Qed.
+Lemma lookup_sync_sections_on : forall w secs q, SyncAll w -> SyncAll (fst (sections_on w secs q)).
+Proof. intros w secs q. apply lk_sections_on. Qed.
+
+Lemma lookup_strip_sections_at : forall w secs q, strip (fst (sections_at w secs q)) = strip w.
+Proof. intros. apply lk_sections_at. Qed.
+Lemma lookup_sync_sections_at : forall w secs q, SyncAll w -> SyncAll (fst (sections_at w secs q)).
+Proof. intros w secs q. apply lk_sections_at. Qed.
+
+Lemma lookup_strip_sec_symx_at : forall w s q, strip (fst (sec_symx_at w s q)) = strip w.
+Proof. intros. apply lk_sec_symx_at. Qed.
+Lemma lookup_sync_sec_symx_at : forall w s q, SyncAll w -> SyncAll (fst (sec_symx_at w s q)).
+Proof. intros w s q. apply lk_sec_symx_at. Qed.
+
+Lemma lookup_strip_chain : forall f, lookup_ok f -> forall l q w, strip (fst (chain f l q w)) = strip w.
+Proof. intros f Hf l q w. apply lk_chain. exact Hf. Qed.
+Lemma lookup_sync_chain : forall f, lookup_ok f -> forall l q w, SyncAll w -> SyncAll (fst (chain f l q w)).
+Proof. intros f Hf l q w. apply lk_chain. exact Hf. Qed.
+
+Lemma lookup_strip_mod_lift : forall f, lookup_ok f -> forall w m q, strip (fst (mod_lift f w m q)) = strip w.
+Proof. intros f Hf w m q. apply lk_mod_lift. exact Hf. Qed.
+Lemma lookup_sync_mod_lift : forall f, lookup_ok f -> forall w m q, SyncAll w -> SyncAll (fst (mod_lift f w m q)).
+Proof. intros f Hf w m q. apply lk_mod_lift. exact Hf. Qed.
+
+Lemma lookup_strip_ir_lift : forall f, lookup_ok f -> forall w ir q, strip (fst (ir_lift f w ir q)) = strip w.
+Proof. intros f Hf w ir q. apply lk_ir_lift. exact Hf. Qed.
+Lemma lookup_sync_ir_lift : forall f, lookup_ok f -> forall w ir q, SyncAll w -> SyncAll (fst (ir_lift f w ir q)).
+Proof. intros f Hf w ir q. apply lk_ir_lift. exact Hf. Qed.
+
+(* lookups do not disturb NonNeg either (nodes are untouched) *)
+Lemma strip_nonneg : forall w w', strip w' = strip w -> NonNeg w -> NonNeg w'.
+Proof.
+  intros w w' H N. apply attr_nonneg with (w := w); [|exact N].
+  intros n. apply attr_nodes. apply (seq_nodes w' w H).
+Qed.
+
+Print Assumptions lt_get_exact.
+Print Assumptions sync_preserved.
+Print Assumptions step_strip.
+Print Assumptions touch_strip.
+Print Assumptions schedule_struct.
+Print Assumptions lk_chain.
+Print Assumptions lk_ir_lift.
+Print Assumptions lookup_sync_sec_blocks_on.
+Print Assumptions lookup_sync_sections_on.
